@@ -1,6 +1,7 @@
 package doerner
 
 import (
+	"github.com/taurusgroup/multi-party-sig/internal/round"
 	"github.com/taurusgroup/multi-party-sig/pkg/math/curve"
 	"github.com/taurusgroup/multi-party-sig/pkg/party"
 	"github.com/taurusgroup/multi-party-sig/pkg/pool"
@@ -52,6 +53,9 @@ func Keygen(group curve.Curve, receiver bool, selfID, otherID party.ID, pl *pool
 // This won't change the value of the public key, but it will change the value of the chaining key.
 // If this isn't desirable, then the new chain key can simply be overwritten with the previous value.
 func RefreshReceiver(config *ConfigReceiver, selfID, otherID party.ID, pl *pool.Pool) protocol.StartFunc {
+	if err := config.Validate(); err != nil {
+		return func([]byte) (round.Session, error) { return nil, err }
+	}
 	return keygen.StartKeygen(config.Group(), true, selfID, otherID, config.SecretShare, config.Public, pl)
 }
 
@@ -59,6 +63,9 @@ func RefreshReceiver(config *ConfigReceiver, selfID, otherID party.ID, pl *pool.
 //
 // See RefreshReceiver.
 func RefreshSender(config *ConfigSender, selfID, otherID party.ID, pl *pool.Pool) protocol.StartFunc {
+	if err := config.Validate(); err != nil {
+		return func([]byte) (round.Session, error) { return nil, err }
+	}
 	return keygen.StartKeygen(config.Group(), false, selfID, otherID, config.SecretShare, config.Public, pl)
 }
 
